@@ -68,11 +68,11 @@ theorem blockDecode_complete_enc (E : Env) (check : Nat) (ign : Bool) (hs : Nat)
 
 /-! ## Index -/
 
-theorem hBlocksSize_append (a b : HashInfo) : hBlocksSize (a ++ b) = hBlocksSize a + hBlocksSize b := by
+theorem hBlocksSize_append_enc (a b : HashInfo) : hBlocksSize (a ++ b) = hBlocksSize a + hBlocksSize b := by
   simp [hBlocksSize]
-theorem hUncompressedSize_append (a b : HashInfo) : hUncompressedSize (a ++ b) = hUncompressedSize a + hUncompressedSize b := by
+theorem hUncompressedSize_append_enc (a b : HashInfo) : hUncompressedSize (a ++ b) = hUncompressedSize a + hUncompressedSize b := by
   simp [hUncompressedSize]
-theorem hIndexListSize_append (a b : HashInfo) : hIndexListSize (a ++ b) = hIndexListSize a + hIndexListSize b := by
+theorem hIndexListSize_append_enc (a b : HashInfo) : hIndexListSize (a ++ b) = hIndexListSize a + hIndexListSize b := by
   simp [hIndexListSize]
 
 /-- Every Record is one `lzma_index_append` would take. -/
@@ -82,7 +82,7 @@ def RecordsOk (rs : List IndexRecord) : Prop :=
 theorem unpadded_le_vli {u : Nat} (h : u ≤ UNPADDED_SIZE_MAX) : u ≤ VLI_MAX := by
   unfold UNPADDED_SIZE_MAX at h; unfold VLI_MAX; omega
 
-theorem indexFinish_complete (blocks : HashInfo) (pre t : List UInt8) :
+theorem indexFinish_complete_enc (blocks : HashInfo) (pre t : List UInt8) :
     indexFinish blocks blocks
         (pre ++ List.replicate (indexPad blocks) 0 ++ le32 (crc32 (pre ++ List.replicate (indexPad blocks) 0)) ++ t)
         pre.length
@@ -106,7 +106,7 @@ theorem indexFinish_complete (blocks : HashInfo) (pre t : List UInt8) :
     exact List.take_left' (by simp)
   rw [htake, matchBytes_complete, le32_length]
 
-theorem indexRecords_complete (blocks : HashInfo) (all : List UInt8) :
+theorem indexRecords_complete_enc (blocks : HashInfo) (all : List UInt8) :
     ∀ (more records : HashInfo) (pre t : List UInt8),
       blocks = records ++ more → RecordsOk more →
       all = pre ++ indexRecordsBytes more ++ List.replicate (indexPad blocks) 0
@@ -124,7 +124,7 @@ theorem indexRecords_complete (blocks : HashInfo) (all : List UInt8) :
     simp only [List.length_nil, indexRecords, indexRecordsBytes, List.flatMap_nil, List.append_nil, List.nil_append,
       Nat.add_zero] at hall ⊢
     rw [hall]
-    exact indexFinish_complete blocks pre t
+    exact indexFinish_complete_enc blocks pre t
   | cons r more ih =>
     intro records pre t hb hok hall
     have hr := hok r (List.mem_cons_self ..)
@@ -160,7 +160,7 @@ theorem indexRecords_complete (blocks : HashInfo) (all : List UInt8) :
         ∨ hUncompressedSize blocks < hUncompressedSize (records ++ [⟨r.unpadded, r.uncompressed⟩])
         ∨ hIndexListSize blocks < hIndexListSize (records ++ [⟨r.unpadded, r.uncompressed⟩])) := by
       have hb' : blocks = (records ++ [⟨r.unpadded, r.uncompressed⟩]) ++ more := by rw [hb]; simp
-      rw [hb', hBlocksSize_append, hUncompressedSize_append, hIndexListSize_append]
+      rw [hb', hBlocksSize_append_enc, hUncompressedSize_append_enc, hIndexListSize_append_enc]
       omega
     rw [if_neg hsum]
     have hb' : blocks = (records ++ [⟨r.unpadded, r.uncompressed⟩]) ++ more := by rw [hb]; simp
@@ -183,7 +183,7 @@ theorem indexRecords_complete (blocks : HashInfo) (all : List UInt8) :
     omega
 
 /-- The canonical Index of the decoded Blocks is accepted, and exactly its bytes are consumed. -/
-theorem indexHashDecode_complete (blocks : HashInfo) (hok : RecordsOk blocks) (hcnt : blocks.length ≤ VLI_MAX) (t : List UInt8) :
+theorem indexHashDecode_complete_enc (blocks : HashInfo) (hok : RecordsOk blocks) (hcnt : blocks.length ≤ VLI_MAX) (t : List UInt8) :
     indexHashDecode blocks (indexEncode blocks ++ t) = ⟨.streamEnd, (indexEncode blocks).length⟩ := by
   have henc : indexEncode blocks ++ t
       = (0 : UInt8) :: (vliEncode blocks.length ++ (indexRecordsBytes blocks ++ List.replicate (indexPad blocks) 0
@@ -209,7 +209,7 @@ theorem indexHashDecode_complete (blocks : HashInfo) (hok : RecordsOk blocks) (h
   have hpre : 1 + (vliEncode blocks.length).length = ([(0 : UInt8)] ++ vliEncode blocks.length).length := by
     simp; omega
   rw [hpre]
-  have := indexRecords_complete blocks
+  have := indexRecords_complete_enc blocks
     ((0 : UInt8) :: (vliEncode blocks.length ++ (indexRecordsBytes blocks ++ List.replicate (indexPad blocks) 0
           ++ le32 (crc32 ([(0 : UInt8)] ++ vliEncode blocks.length ++ indexRecordsBytes blocks ++ List.replicate (indexPad blocks) 0)) ++ t)))
     blocks [] ([(0 : UInt8)] ++ vliEncode blocks.length) t (by simp) hok (by simp)
@@ -245,7 +245,7 @@ theorem indexAndFooter_complete_enc (hdr : StreamFlags) (blocks : HashInfo) (hok
   obtain ⟨hv, hbs, hck⟩ := streamFooterEncode_ok _ _ _ hf
   obtain ⟨hfl, hfd⟩ := streamFooter_roundtrip hdr _ ftr [] hf
   unfold indexAndFooter
-  rw [List.append_assoc, indexHashDecode_complete blocks hok hcnt]
+  rw [List.append_assoc, indexHashDecode_complete_enc blocks hok hcnt]
   simp only [ne_eq, not_true_eq_false, if_false]
   rw [List.drop_left' rfl]
   have hl : ¬ ((ftr ++ t).length < STREAM_HEADER_SIZE) := by
